@@ -13,6 +13,8 @@
 (*   alpha   input alphabet (code points); the first two are the pattern's *)
 (*           letters                                                       *)
 (*   maxlen  input length bound      stride, offset  pid = offset + k*stride*)
+(*   nonnull restrict to patterns without a quantified nullable operand    *)
+(*           (C06: the domain on which Go's regexp and backtracking agree) *)
 (***************************************************************************)
 EXTENDS Integers, Sequences, FiniteSets, TLC, Json, IOUtils, RegexAST, RegexSem, Options
 
@@ -174,7 +176,7 @@ Emit(pid, vi) ==
       O == SeqToSet(v.o)
       SO == v.so
       t == Spell(TreeAt(pid), v) IN
-  IF ~InFragment(t, "n" \in O) THEN PrintT(<<"SKIP", ToJson([pid |-> pid])>>)
+  IF ~InFragment(t, "n" \in O) \/ (Params.nonnull /\ ~NoNullableOperand(t, "n" \in O)) THEN PrintT(<<"SKIP", ToJson([pid |-> pid])>>)
   ELSE
   LET p == Table(t) IN
   IF PreOrder(p) /\ OptsetPlacement(p) /\ ~RefsResolve(p, O, Params.dia)
